@@ -187,6 +187,15 @@ inherit() {
 		local PROPERTIES RESTRICT
 	fi
 
+	# An eclass that runs `unset` on one of these acts on a local of a previous
+	# function scope: by default bash then drops our local and exposes (and lets
+	# the eclass clobber) the caller's value. localvar_unset (bash-5.0) makes it
+	# behave like an unset in this scope instead.
+	local __inherit_localvar_unset=false
+	if ! shopt -q localvar_unset 2>/dev/null && shopt -s localvar_unset 2>/dev/null; then
+		__inherit_localvar_unset=true
+	fi
+
 	# keep track of direct ebuild inherits
 	[[ ${INHERIT_DEPTH} -eq 1 ]] && INHERIT+=" $@"
 
@@ -227,6 +236,9 @@ inherit() {
 
 		shift
 	done
+
+	${__inherit_localvar_unset} && shopt -u localvar_unset
+	:
 }
 
 # Exports stub functions that call the eclass's functions, thereby making them default.
